@@ -82,7 +82,9 @@ func c17(c *core.Ctx) {
 			return ssax.Callee(g) == schedObj
 		}
 		reach, tr := ssax.Reach(f, s.Instr, func(in ssa.Instruction) bool { _, ok := in.(*ssa.Return); return ok }, isSched,
-			func(a, b *ssa.BasicBlock) bool { return len(a.Succs) == 2 && a.Succs[1] == b && ssax.InfeasibleEnumDefault(a) })
+			func(a, b *ssa.BasicBlock) bool {
+				return len(a.Succs) == 2 && a.Succs[1] == b && ssax.InfeasibleEnumDefault(a)
+			})
 		key := fname(f) + "·install→go scheduleExpiration"
 		if reach {
 			if ok, why := inPlaceRekey(c, f, s, cg); ok {
